@@ -961,6 +961,10 @@ func c05Limits(h *H, ws c05Writers) {
 		cases = append(cases, lim{rs, 5, rs < 9 || rs > c05MaxBlock+9})
 	}
 	cases = append(cases, lim{1<<32 - 1, 1<<32 - 1, true}, lim{c05MaxBlock + 9, c05MaxData, false}, lim{c05MaxBlock + 10, c05MaxData + 1, true})
+	// one field just beyond its limit while the OTHER sits at or just under its own (a bound that is relative to the
+	// other field is widest there)
+	cases = append(cases, lim{c05MaxBlock + 10, c05MaxData, true}, lim{c05MaxBlock + 10, c05MaxData - 1, true},
+		lim{c05MaxBlock + 9 + 4096, c05MaxData - 7, true}, lim{c05MaxBlock + 9 + 500000, c05MaxData, true}, lim{c05MaxBlock + 9, c05MaxData + 1, true})
 	sort.SliceStable(cases, func(a, b int) bool {
 		return uint64(cases[a].rs)+uint64(cases[a].ds) < uint64(cases[b].rs)+uint64(cases[b].ds)
 	})
